@@ -1102,3 +1102,16 @@ func partOf(fn, target *ssa.Function) bool {
 	}
 	return false
 }
+
+// paramM: parameter i of fn counted as in its method form (0 = the receiver):
+// an unexported method that does not use its receiver may be written as a plain
+// function, whose parameters are then shifted by one.
+func paramM(fn *ssa.Function, i int) ssa.Value {
+	if fn.Signature.Recv() == nil {
+		i--
+	}
+	if i < 0 || i >= len(fn.Params) {
+		return nil
+	}
+	return fn.Params[i]
+}
